@@ -290,3 +290,53 @@ class RegisterGetItem:
 
     def ensures_qubit(self, key, result):
         return type_is(result, NamedQubit) and same(result._alias_from, self) and same(result._alias_index, key)
+
+
+# ---------------------------------------------------------------- C14: the range check at construction of an alias
+from jaqalpaq.core.parameter import AnnotatedValue, ParamType
+
+
+@spec
+def bad_kind(b) -> bool:
+    """a let-valued slice bound whose kind is not an integer kind"""
+    return isinstance(b, AnnotatedValue) and not (b._kind == ParamType.INT or b._kind == ParamType.NONE)
+
+
+@spec
+def kinded(b) -> bool:
+    return implies(isinstance(b, AnnotatedValue), isinstance(b._kind, ParamType))
+
+
+@spec
+def any_annotated(s) -> bool:
+    return isinstance(s.start, AnnotatedValue) or isinstance(s.stop, AnnotatedValue) or isinstance(s.step, AnnotatedValue)
+
+
+@contract("core.register:Register.__init__", props=["C14", "C16"])
+class RegisterInit:
+    """C14 at construction: a register needs a size and nothing else, an alias a source and no size; an alias slice
+    with literal bounds over a source of known literal size is refused with JaqalError EXACTLY when its stop exceeds
+    the source's size or its start is negative (the stop, not the number of selected qubits, is what must fit);
+    let-valued bounds must be of an integer kind.  Nothing but JaqalError escapes; the four fields are set."""
+
+    def requires(self, name, size, alias_from, alias_slice):
+        return (type_is(self, Register) and is_str(name) and (size is None or is_intconst(size))
+                and (alias_from is None or wf_reg(alias_from))
+                and (alias_slice is None or (wf_slice(alias_slice) and alias_from is not None
+                                             and kinded(alias_slice.start) and kinded(alias_slice.stop) and kinded(alias_slice.step))))
+
+    modifies = ("self._name", "self._size", "self._alias_from", "self._alias_slice")
+
+    def raises_JaqalError(self, name, size, alias_from, alias_slice):
+        return ((alias_from is None and not (alias_slice is None and size is not None))
+                or (size is not None and alias_from is not None)
+                or (alias_slice is not None and any_annotated(alias_slice)
+                    and (bad_kind(alias_slice.start) or bad_kind(alias_slice.stop) or bad_kind(alias_slice.step)))
+                or (alias_slice is not None and not any_annotated(alias_slice)
+                    and (size_bad(alias_from)
+                         or (is_int(size_val(alias_from)) and (alias_slice.stop > size_val(alias_from) or sl_start(alias_slice) < 0)))))
+
+    raises_only = ("JaqalError",)
+
+    def ensures_fields(self, name, size, alias_from, alias_slice, result):
+        return same(self._name, name) and same(self._size, size) and same(self._alias_from, alias_from) and same(self._alias_slice, alias_slice)
